@@ -139,6 +139,7 @@ func main() {
 		{"Structs.lean", genStructs},
 		{"InterpVisits.lean", genInterpVisits},
 		{"Signing.lean", genSigning},
+		{"Globals.lean", genGlobals},
 	}
 	for _, g := range gens {
 		b, err := g.f(root, *repo)
